@@ -12,6 +12,8 @@ import DriverLib.C06
 import DriverLib.C19
 import DriverLib.C05
 import DriverLib.C02
+import DriverLib.C08
+import DriverLib.C09
 open Lean Drv
 
 def handlers : List (String → Json → Option (R Json)) := [
@@ -22,6 +24,8 @@ def handlers : List (String → Json → Option (R Json)) := [
   Drv.C19.handle,
   Drv.C05.handle,
   Drv.C02.handle,
+  Drv.C08.handle,
+  Drv.C09.handle,
   fun _ _ => none]
 
 def dispatch (line : String) : Json :=
